@@ -122,6 +122,22 @@ ADD_TEXT = {
     "C15": REGEN % ("_generate_regular_spikes, _generate_homogeneous_poisson_spikes and spike_times_from_json", "regularSpikes_refines / poissonSpikes_refines / spikeTimesFromJson_refines"),
     "C16": " Regenerated tie: ode_analyzer.py is read as data on every run (argparse table, keyword -> parsed-argument mapping of the analysis call, normalisation of --preserve-expressions, result-name expression, order of steps and exits: Generated/CliTable.lean) and cli_keywords_pass_through / cli_arguments_as_modelled / cli_preserve_normalisation_as_modelled / cli_result_stem_as_modelled / cli_steps_as_modelled state that it is what Model/Cli.lean assumes.",
 }
+# ---- session 4: the glue around the core is regenerated as well (DESIGN.md 11.3c-bis)
+GLUE = " Glue (DESIGN.md 11.3c-bis), regenerated and refined likewise: %s."
+ADD_GLUE = {
+    "C01": "get_connected_component_indices (connectedComponentIndices_refines, mirror_spec: the pattern handed to SciPy is symmetric and loses no non-zero entry) and _from_json_to_shapes (fromJsonToShapes_keys / fromJsonToShapes_time_not_param: which symbols become constant parameters, for every iteration order of the Python set); the flow oracle advances the configured time symbol",
+    "C02": "_get_all_first_order_variables, _find_variable_definition and the preserve_expressions block of _analysis (preserveBlock_refines; entry_numeric_is_user_text: a preserved expression is the right-hand side text of one of the user's first-order equations for that variable, re-spelt with the configured marker; the internal assertion never fails); correspondence corr:glue_preserve",
+    "C03": "_find_in_matrix, get_lin_cc_symbols, shape_order_from_system_matrix, get_connected_symbols (findPos_column_distinct and self_mem_getConnectedSymbols turn two renderings of the demotion-rule translation into theorems; getLinCcSymbols_of_distinct); correspondence corr:glue_lin",
+    "C04": "_from_json_to_shapes (fromJsonToShapes_keys, fromJsonToShapes_var_not_param, fromJsonToShapes_shapes)",
+    "C05": "get_connected_component_indices (connectedComponentIndices_refines, mirror_spec); every accepted function is also analysed with the analytic solver disabled and must satisfy the returned ODE",
+    "C08": "Shape.get_initial_value, Shape.get_state_variables, SystemOfShapes.get_initial_value and the initial-value copy loop of _analysis (initialValueCopy_refines, ivOut_keys, ivOut_value, ivOut_keys_nodup) and _from_json_to_shapes; correspondence corr:glue_iv compares the (symbol, order) pairs model with the spellings the implementation produces",
+    "C10": "MixedIntegrator.numerical_jacobian / step (numericalJacobian_entry: every Jacobian entry is the compiled entry at the same argument vector the stepping function uses at that (t, y)) and _from_json_to_shapes; oracle J = d(Ax+b+c)/dx on the complete stored system, also after a complete analysis",
+    "C12": "AnalyticIntegrator._update_step (updateStep_lookup, updateStep_order_invariant) and set_initial_values (setInitialValues_refines, setIvSpec_lookup, setIvSpec_unknown); oracles: the caller's dictionary is unmodified, re-ordered dictionaries, parameter sweeps",
+    "C13": "MixedIntegrator.step (mixedStep_refines, stepLocals_analytic, stepLocals_numeric, stepLocals_indep_stale) and the parameter / symbol handling of MixedIntegrator.__init__ (mixedInit_analytic_params: a parameter value given to the constructor wins over the one stored in the analytic solver dictionary; mixedInit_allSyms); run-time parameters that differ from the analysis-time ones against an exact reference",
+    "C14": "MixedIntegrator.numerical_jacobian / step (numericalJacobian_entry, stepLocals_indep_stale); during the benchmark the stand-in's implicit stepper asks for the Jacobian at the start of every raw step and every 5th is audited against central differences of the derivative function at the same (t, y); every specified spike is delivered",
+}
+for _k, _v in ADD_GLUE.items():
+    ADD_TEXT[_k] = ADD_TEXT[_k] + GLUE % _v
 ADD_TECH = {k: "; model regenerated from the Python AST on every run with kernel-checked refinement to the hand model" for k in ADD_TEXT}
 ADD_TECH["C02"] += "; symbolic end-to-end pipeline model on the Laurent-polynomial fragment with losslessness theorems and whole-pipeline correspondence"
 for _k in ("C03", "C04"):
